@@ -2,7 +2,9 @@ package main
 
 import (
 	"fmt"
+	"math"
 	"reflect"
+	"strconv"
 	"time"
 )
 
@@ -14,6 +16,17 @@ type Sub struct {
 	S string
 	B bool
 	F float64
+
+	h *runCtx
+}
+
+// Score is a counted, side-effect-free method on a nested object
+func (s *Sub) Score(k int64) int64 {
+	if s.h != nil {
+		s.h.ncalls++
+		s.h.calls = append(s.h.calls, []interface{}{"Score", k})
+	}
+	return k + 10
 }
 
 type Fact struct {
@@ -44,6 +57,7 @@ type Fact struct {
 	AS  []string
 	AF  []float64
 	AP  []*Sub
+	AA  [][]int64
 	M   map[string]int64
 	MS  map[string]string
 	MI  map[int64]int64
@@ -65,6 +79,11 @@ func (f *Fact) rec(name string, args ...interface{}) int {
 	}
 	n := f.h.ncalls
 	f.h.ncalls++
+	for i, a := range args {
+		if x, ok := a.(float64); ok {
+			args[i] = []interface{}{"f64", strconv.FormatUint(math.Float64bits(x), 10)}
+		}
+	}
 	f.h.calls = append(f.h.calls, append([]interface{}{name}, args...))
 	return n
 }
@@ -130,7 +149,7 @@ var typeReg = map[string]reflect.Type{
 	"uint32": reflect.TypeOf(uint32(0)), "uint64": reflect.TypeOf(uint64(0)),
 	"float32": reflect.TypeOf(float32(0)), "float64": reflect.TypeOf(float64(0)),
 	"string": reflect.TypeOf(""), "bool": reflect.TypeOf(true), "time": reflect.TypeOf(time.Time{}),
-	"other": reflect.TypeOf((*interface{})(nil)).Elem(),
+	"other": reflect.TypeOf((*interface{})(nil)).Elem(), "[]int64": reflect.TypeOf([]int64{}),
 }
 
 var baseTime = time.Now()
